@@ -246,7 +246,7 @@ struct Shrinker {
 	bool fails(const Plan &p) {
 		if (execs >= budget) return false;
 		++execs;
-		Result r = exec_child(w, p, 6);
+		Result r = exec_child(w, p, 2);
 		return r.sig == sig;
 	}
 	bool ddmin_ops(Plan &p) {
